@@ -468,6 +468,7 @@ pub struct GenCfg {
     pub allow_macros: bool,
     pub allow_modexpr: bool,
     pub allow_rest: bool,
+    pub no_defconst: bool,
 }
 
 impl GenCfg {
@@ -484,6 +485,7 @@ impl GenCfg {
             allow_macros: true,
             allow_modexpr: true,
             allow_rest: true,
+            no_defconst: false,
         }
     }
     pub fn classic(quick: bool) -> GenCfg {
@@ -499,6 +501,7 @@ impl GenCfg {
             allow_macros: true,
             allow_modexpr: false,
             allow_rest: false,
+            no_defconst: false,
         }
     }
 }
@@ -517,6 +520,12 @@ pub struct Gen<'a, 'b> {
     /// defconst whose value mentions a function as a value sends the compiler into unbounded
     /// recursion -- known finding under C14; excluded here by construction so the search goes on)
     pub in_defconst: bool,
+    /// current nesting of let/assign forms and the limit for the function being generated.
+    /// Compile time of the let desugaring grows like (number of parameters)^(nesting): 15
+    /// parameters and 4 nested let* take cl21 more than 30 s (noted as a C14 candidate), so the
+    /// nesting is capped by construction, harder when the parameter list is long.
+    pub let_depth: usize,
+    pub let_limit: usize,
 }
 
 type Scope = Vec<(String, Ty)>;
@@ -571,6 +580,10 @@ const STRS: &[&str] = &["hello", "a", "", "abc def", "x'y", "chia", "0x41", "12"
 
 impl<'a, 'b> Gen<'a, 'b> {
     pub fn new(c: &'a mut Choices<'b>, cfg: GenCfg) -> Self {
+        // reserved: in the non-strict dialects a bare integer is looked up as a name first, and
+        // 64 spells @ (the whole environment)
+        let mut reserved = BTreeSet::new();
+        reserved.insert(b"@".to_vec());
         Gen {
             c,
             cfg,
@@ -579,8 +592,10 @@ impl<'a, 'b> Gen<'a, 'b> {
             consts: vec![],
             feats: BTreeSet::new(),
             counter: 0,
-            all_names: BTreeSet::new(),
+            all_names: reserved,
             in_defconst: false,
+            let_depth: 0,
+            let_limit: 3,
         }
     }
 
@@ -836,8 +851,19 @@ impl<'a, 'b> Gen<'a, 'b> {
                 };
                 Expr::If(Box::new(c), Box::new(a), Box::new(b))
             }
-            3 => self.gen_let(ty, scope, depth),
-            4 => self.gen_assign(ty, scope, depth),
+            3 | 4 if self.let_depth >= self.let_limit => self.gen_specific(ty, scope, depth),
+            3 => {
+                self.let_depth += 1;
+                let e = self.gen_let(ty, scope, depth);
+                self.let_depth -= 1;
+                e
+            }
+            4 => {
+                self.let_depth += 1;
+                let e = self.gen_assign(ty, scope, depth);
+                self.let_depth -= 1;
+                e
+            }
             5 => match self.gen_call(ty, scope, depth) {
                 Some(e) => e,
                 None => self.gen_specific(ty, scope, depth),
@@ -1221,7 +1247,7 @@ impl<'a, 'b> Gen<'a, 'b> {
         let mut args: Vec<Expr> = f.params.iter().map(|p| self.gen_expr(&pat_ty(p), scope, d)).collect();
         let mut rest = None;
         if let Some((_, rt)) = &f.rest {
-            match self.c.pick(3) {
+            match if self.cfg.allow_rest { self.c.pick(3) } else { self.c.pick(1) * 0 + [0usize, 2][self.c.pick(2)] } {
                 0 => {
                     // extra positional args are collected by the rest parameter
                     let k = self.c.range(0, 3);
@@ -1310,12 +1336,12 @@ impl<'a, 'b> Gen<'a, 'b> {
         }
     }
 
-    fn gen_helper(&mut self) -> Helper {
+    pub fn gen_helper(&mut self) -> Helper {
         let k = self.c.weighted(&[
             10,
             8,
             3,
-            if self.cfg.classic_subset { 2 } else { 3 },
+            if self.cfg.no_defconst { 0 } else if self.cfg.classic_subset { 2 } else { 3 },
             if self.cfg.allow_macros { 4 } else { 0 },
         ]);
         match k {
@@ -1383,7 +1409,9 @@ impl<'a, 'b> Gen<'a, 'b> {
                         scope.push(r.clone());
                     }
                     let d = self.c.range(1, self.cfg.max_depth);
+                    self.let_limit = if scope.len() > 8 { 1 } else if scope.len() > 4 { 2 } else { 3 };
                     body = self.gen_expr(&ret, &scope, d);
+                    self.let_limit = 3;
                     self.fns.push(FnSig {
                         name: name.clone(),
                         inline,
@@ -1472,7 +1500,9 @@ impl<'a, 'b> Gen<'a, 'b> {
         }
         let ret = self.gen_ret_ty_nofun();
         let d = self.c.range(1, self.cfg.max_depth);
+        self.let_limit = if scope.len() > 8 { 1 } else if scope.len() > 4 { 2 } else { 3 };
         let mut body = self.gen_expr(&ret, &scope, d);
+        self.let_limit = 3;
         // nested mod applied with a
         if self.cfg.allow_modexpr && self.c.chance(20) {
             self.feat("nested-mod");
